@@ -115,13 +115,17 @@ def line_blocks(tier):
     for ri, rhs in enumerate(RHS):
         for si, sp in enumerate(EQ_SPACING):
             for li, lf in enumerate(LAG_FORMS):
-                for with_t in (False, True):
+                for with_t in (False, True, 'lagged'):
                     if tier == 'quick' and (ri + si + li) % 2:
                         continue
                     endo = [('x', rhs), ('y', '2.0'), ('w', 'x / 3')]
-                    if with_t:
-                        endo.append(('t', 'k + 100'))
                     lag = [('L', 'x')]
+                    if with_t is True:
+                        endo.append(('t', 'k + 100'))
+                    elif with_t == 'lagged':
+                        # the user's own time axis, given only through a lagged line
+                        endo.append(('tnext', 't + 0.25'))
+                        lag.append(('t', 'tnext'))
                     ic = {'x': '5.', 'L': '-1'}
                     exo = [('g', '[1., 2., 3.]')]
                     lines = [('endo', sp % (v, e)) for v, e in endo]
@@ -130,7 +134,7 @@ def line_blocks(tier):
                     lines += [('param', sp % ('MaxTime', '7')), ('param', sp % ('Err_Tolerance', '1e-4'))]
                     lines += [('bad', 'oops no equals'), ('bad', 'a = b = c'), ('blank', ''), ('blank', '   ')]
                     rnd.shuffle(lines)
-                    marker = MARKERS[(ri * 5 + si * 3 + li + int(with_t)) % len(MARKERS)]
+                    marker = MARKERS[(ri * 5 + si * 3 + li + (2 if with_t == 'lagged' else int(with_t))) % len(MARKERS)]
                     text = '\n'.join(l for _, l in lines) + '\n' + marker + '\n' + '\n'.join(sp % (v, e) for v, e in exo)
                     out.append((text, dict(endo=endo, lag=lag, ic=ic, exo=exo, with_t=with_t)))
     return out
@@ -150,7 +154,7 @@ def lines_chunk(items):
         n += 1
         problems = []
         want_endo = dict(exp['endo'])
-        if not exp['with_t']:
+        if exp['with_t'] is False:
             want_endo['t'] = 'k'
         got_endo = dict(p.Endogenous)
         if len(p.Endogenous) != len(got_endo) or set(got_endo) != set(want_endo):
@@ -166,7 +170,7 @@ def lines_chunk(items):
                             problems.append('right-hand side of %s parsed as %r, written %r' % (v, got_endo[v], want_endo[v]))
                 except Untranslatable as ex:
                     problems.append('parsed right-hand side of %s unusable: %s' % (v, ex))
-        if [(v, s.strip()) for v, s in p.Lagged] != exp['lag']:
+        if sorted((v, s.strip()) for v, s in p.Lagged) != sorted(exp['lag']):
             problems.append('lagged %r, expected %r' % (p.Lagged, exp['lag']))
         if {k: float(v) for k, v in p.InitialConditions.items()} != {k: float(v) for k, v in exp['ic'].items()}:
             problems.append('initial conditions %r, expected %r' % (p.InitialConditions, exp['ic']))
